@@ -18,6 +18,8 @@ mod tests;
 
 pub(crate) use cancel_token::CancelToken;
 pub(crate) use promise::Promise;
+#[cfg(nexosim_verif)]
+pub(crate) use promise::Stage;
 pub(crate) use runnable::Runnable;
 
 use self::util::{runnable_exists, RunOnDrop};
